@@ -165,7 +165,7 @@ pub fn program_strategy(max_nodes: usize, tie_bias: bool, past: bool) -> impl St
     )
         .prop_map(|(params, s, nodes, pre_past)| Program {
             // the calendar scans from time zero: keep the start within 2*10^5 bucket widths (cost, not semantics)
-            start_ns: STARTS[s].min(params.t_ns * 200_000),
+            start_ns: STARTS[s].min(params.t_ns.saturating_mul(200_000)),
             params,
             nodes,
             pre_past,
